@@ -524,7 +524,11 @@ def random_mtl(rng, heads_disjoint=True, max_abs=300):
                 M.masked_tasks.append(t)
             hp = list(used_feats) + own
             if not heads_disjoint and rng.random() < 0.3 and M.shared_leaves:
-                hp.append(rng.choice(M.shared_leaves))       # reaches a shared leaf around the features
+                inner = [i for i in trunk if i not in M.features]
+                if inner and rng.random() < 0.5:
+                    hp.append(rng.choice(inner))             # a skip connection from an intermediate trunk activation
+                else:
+                    hp.append(rng.choice(M.shared_leaves))   # reaches a shared leaf around the features
             start = len(P.nodes)
             grow(rng, P, hp, rng.choice([0, 1, 2, 3]))
             new_nodes = list(range(start, len(P.nodes)))
